@@ -37,7 +37,19 @@ def flatten_iter(tree):
 
 
 def expand_segs(segs):
-    return "".join(block * reps for block, reps in segs)
+    """segments -> text, the same expansion as Corr.BigText.expand: [block, reps] repeats the block; a dict
+    {"pre", "width", "start", "count", "post"} stands for the lines pre + "%<width>d" % i + post, i = start ..."""
+    out = []
+    for sg in segs:
+        if isinstance(sg, dict):
+            out.extend("%s%*d%s" % (sg["pre"], sg["width"], i, sg["post"]) for i in range(sg["start"], sg["start"] + sg["count"]))
+        else:
+            out.append(sg[0] * sg[1])
+    return "".join(out)
+
+
+def seg_len(sg):
+    return len(expand_segs([sg]))
 
 
 def expand_toks(tsegs):
